@@ -367,3 +367,96 @@ def pedigree_flow(r, payload, seed, part=None):
             cls.incongruence, cls.burn = cls._vmc_wrapped
             cls._vmc_wrapped = False
     r.sample({"flow": "mchap call-pedigree: CLI + pedigree / gamete files -> PedigreeCallingMCMC arrays", "pedigree": PED, "tau": TAU, "lambda": LAM, "error": ERR}, cap=1)
+
+
+# ------------------------------------------------------------------------------------------------ G-length fields
+def vcf_index(g):
+    """position of the sorted allele tuple g in a G-length field (VCF specification): sum_k C(a_k + k, k + 1)"""
+    return sum(math.comb(a + k, k + 1) for k, a in enumerate(sorted(g)))
+
+
+def gfield_flow(r, payload, prog, hname):
+    """FORMAT/GP and GL as printed by a caller: N = C(alleles + ploidy - 1, ploidy) values over *all* alleles of the record (masked ones included),
+    GP at the VCF index of the called genotype is GPM, GL at every index is that genotype's read likelihood"""
+    mods = stddata.modules()
+    m = mods[prog]
+    env.quiet()
+    D = stddata.Data(env.scratch_dir("gfield"))
+    datas = []
+    real_call = m.program.call_sample_genotypes
+
+    def rec_call(self, data):
+        out = real_call(self, data)
+        datas.append(data)
+        return out
+
+    if prog == "assemble":
+        with patched((m.program, "call_sample_genotypes", rec_call)):
+            out = stddata.run(D.assemble_args(report=["GP", "GL"], extra=["--haplotype-posterior-threshold", hname]))
+    else:
+        (hn, hv, hextra), = haplotype_inputs(D, hname)
+        extra = hextra + (D.pedigree_files() if prog == "call-pedigree" else []) + ["--report", "GP", "GL"]
+        with patched((m.program, "call_sample_genotypes", rec_call)):
+            out = stddata.run(D.call_args(prog, hv, extra=extra))
+    env.quiet()
+    hdr, samples, recs = vcfparse.parse(out)
+    tag = "gfield|%s|%s" % (prog, hname)
+    if len(recs) != len(datas) or not recs:
+        r.violation(tag + "|shape", "%d records for %d loci" % (len(recs), len(datas)), payload)
+        return
+    for rec, data in zip(recs, datas):
+        if set(rec["filter"].split(";")) & {"NOA", "AF0"}:
+            continue
+        if prog == "assemble":
+            # listed alleles -> per-SNV allele indices, read off the REF / ALT strings at the record's SNVPOS
+            snvpos = [] if rec["info"].get("SNVPOS") in (None, ["."]) else [int(x) - 1 for x in rec["info"]["SNVPOS"]]
+            try:
+                haps = [tuple(list(data.locus.alleles[j]).index(seq[k]) for j, k in enumerate(snvpos)) for seq in [rec["ref"]] + rec["alt"]]
+            except ValueError:
+                r.violation(tag + "|alleles", "a listed allele of %s:%d uses a base that is not an allele of the SNV" % (rec["chrom"], rec["pos"]), payload)
+                continue
+        else:
+            haps = [tuple(int(x) for x in h) for h in data.locus.encode_haplotypes()]
+        H = len(haps)
+        if H != len(rec["alt"]) + 1:
+            r.violation(tag + "|alleles", "%d encoded haplotypes for %d listed alleles" % (H, len(rec["alt"]) + 1), payload)
+            continue
+        for si, s in enumerate(samples):
+            P = stddata.PLOIDY[s]
+            col = rec["samples"][si]
+            N = math.comb(H + P - 1, P)
+            r.evaluations += 1
+            ctx = "%s at %s:%d (%d alleles, ploidy %d)" % (s, rec["chrom"], rec["pos"], H, P)
+            gp = col.get("GP")
+            gl = col.get("GL")
+            if gp in (None, ".") or gl in (None, "."):
+                r.violation(tag + "|missing", "GP / GL requested but %r / %r for %s" % (gp, gl, ctx), payload)
+                continue
+            gp = [float(x) for x in gp.split(",")]
+            glv = [float("-inf") if x in (".", "-inf") else float(x) for x in gl.split(",")]
+            if len(gp) != N or len(glv) != N:
+                r.violation(tag + "|length", "GP has %d and GL %d values, N = %d for %s" % (len(gp), len(glv), N, ctx), payload)
+                continue
+            r.nontrivial += 1
+            gt = [a for a in vcfparse.gt_alleles(col["GT"])]
+            if "." not in gt:
+                idx = vcf_index([int(a) for a in gt])
+                if abs(gp[idx] - float(col["GPM"])) > 0.0011:
+                    r.violation(tag + "|GP-at-GT", "GP[%d] = %g at the VCF index of GT %s but GPM = %s for %s" % (idx, gp[idx], col["GT"], col["GPM"], ctx), payload)
+            if sum(gp) > 1.0 + 0.0005 * N:
+                r.violation(tag + "|GP-sum", "GP sums to %g for %s" % (sum(gp), ctx), payload)
+            reads = ref.reads_from_array(np.asarray(data.read_dists[s], float))
+            counts = [int(c) for c in data.read_counts[s]]
+            bad = 0
+            for g in ref.multisets(range(H), P):
+                want = ref.llk(reads, counts, [haps[a] for a in g]) / math.log(10)
+                got = glv[vcf_index(g)]
+                if want == -math.inf:
+                    ok = got < -30
+                else:
+                    ok = abs(got - want) <= 0.0006 + 1e-5 * abs(want)
+                if not ok and bad == 0:
+                    bad += 1
+                    r.violation(tag + "|GL-order", "GL[%d] = %g but genotype %r (that VCF index) has log10 likelihood %.4f for %s" % (vcf_index(g), got, g, want, ctx), payload)
+            r.outcome((tag, rec["pos"], s, tuple(gt)))
+    r.sample({"flow": "G-length fields of %s on %s input" % (prog, hname)}, cap=1)
